@@ -49,6 +49,10 @@ def known_entry(prop: str, cls: str) -> Optional[dict]:
 def one_run(mod: Any, script: dict) -> Tuple[Any, List[Violation]]:
     run = mod.simulate(script)
     viols = mod.oracle(script, run)
+    end = str(getattr(run, "end", ""))
+    if end.startswith("escaped:"):
+        viols = list(viols) + [Violation(f"{mod.ID}/exception-escaped-event-loop",
+                                         f"{end[8:]} escaped from a task and tore down the event loop (a real worker process would die)")]
     return run, viols
 
 
